@@ -210,13 +210,16 @@ func churnRV(rv reflect.Value, r *rand.Rand, depth int) {
 }
 
 func engineCodec(rep *Report) {
-	subs := subjectsForShard()
+	subs := allSubjects()
 	n := perType(150, 6000)
 	only := onlyIndex()
-	for _, s := range subs {
+	for ti, s := range subs {
 		rep.Types = append(rep.Types, string(s.FullName))
 		d := s.Zero.ProtoReflect().Descriptor()
 		for i := 0; i < n; i++ {
+			if !mineCase(ti, i) {
+				continue
+			}
 			if only >= 0 && i != only {
 				continue
 			}
